@@ -54,6 +54,9 @@ type In struct {
 	StaggerUs []int  `json:"stagger_us"` // delay before plugin i connects
 	Indices   []int  `json:"indices"`    // two-digit plugin indices
 	HoldMs    int    `json:"hold_ms"`    // kind hold: how long the block is held with plugins pending
+	Contend   int    `json:"contend"`    // goroutines of plugin 0 issuing unsolicited updates (contends the adaptation mutex)
+	DwellUs   int    `json:"dwell_us"`   // how long UpdateFn keeps the adaptation mutex
+	SyncLagUs int    `json:"synclag_us"` // SyncFn dwells this long between snapshot delivery and returning
 	Seed      int64  `json:"seed"`
 }
 
@@ -128,6 +131,7 @@ func (e *env) syncFn(ctx context.Context, cb adaptation.SyncCB) error {
 		ctrs = append(ctrs, rt.Ctr(fmt.Sprintf("c%d", id), "pod0"))
 	}
 	_, err := cb(ctx, pods, ctrs)
+	spin(e.in.SyncLagUs)
 	bad := int64(0)
 	if err != nil {
 		bad = 1
@@ -144,8 +148,20 @@ func (e *env) syncFn(ctx context.Context, cb adaptation.SyncCB) error {
 	return err
 }
 
+// updateFn runs under the adaptation mutex (Adaptation.updateContainers); dwelling here makes
+// that mutex contended, which widens every window that is only closed by it.
 func (e *env) updateFn(context.Context, []*api.ContainerUpdate) ([]*api.ContainerUpdate, error) {
+	spin(e.in.DwellUs)
 	return nil, nil
+}
+
+func spin(us int) {
+	if us <= 0 {
+		return
+	}
+	t := time.Now()
+	for time.Since(t) < time.Duration(us)*time.Microsecond {
+	}
 }
 
 // one block with k creations inside; returns the log entries
@@ -284,8 +300,9 @@ func runCase(in In, dir string) (obs Obs) {
 		}
 	}()
 
-	var stop atomic.Bool
-	var wgP, wgC sync.WaitGroup
+	var stop, stopU atomic.Bool
+	var wgP, wgC, wgU sync.WaitGroup
+	defer func() { stopU.Store(true); wgU.Wait() }()
 	startPlugins := func() {
 		for i := range plugs {
 			i := i
@@ -304,6 +321,20 @@ func runCase(in In, dir string) (obs Obs) {
 				pmu[i].Lock()
 				pobs[i].Started = true
 				pmu[i].Unlock()
+				if i == 0 {
+					for k := 0; k < in.Contend; k++ {
+						wgU.Add(1)
+						go func() {
+							defer wgU.Done()
+							upd := []*api.ContainerUpdate{{ContainerId: "c0"}}
+							for !stopU.Load() {
+								if _, err := plugs[0].Stub.UpdateContainers(upd); err != nil {
+									return
+								}
+							}
+						}()
+					}
+				}
 			}()
 		}
 	}
@@ -449,7 +480,7 @@ func runCase(in In, dir string) (obs Obs) {
 
 func generate(o *hx.Opts) []In {
 	r := o.Rand(8)
-	n := o.N(160, 4000)
+	n := o.N(400, 6000)
 	var out []In
 	procsQuick := []int{2, 4, 8, 16}
 	procsAll := []int{1, 2, 3, 4, 8, 16, 32}
@@ -480,6 +511,13 @@ func generate(o *hx.Opts) []In {
 			}
 			in.StaggerUs = append(in.StaggerUs, d)
 			in.Indices = append(in.Indices, r.Intn(100))
+		}
+		if r.Intn(2) == 0 {
+			in.Contend = 1 + r.Intn(3)
+			in.DwellUs = []int{20, 50, 100, 200, 400}[r.Intn(5)]
+		}
+		if r.Intn(4) == 0 {
+			in.SyncLagUs = []int{50, 200, 1000}[r.Intn(3)]
 		}
 		if i%10 == 9 {
 			in.Kind = "hold"
